@@ -12,6 +12,7 @@ import z3
 z3.set_param('smt.random_seed', 0)
 z3.set_param('sat.random_seed', 0)
 
+DEBUG = bool(os.environ.get('PYVC_DEBUG'))
 Z_TRUE = z3.BoolVal(True)
 Z_FALSE = z3.BoolVal(False)
 
@@ -45,6 +46,22 @@ class VC:
         self.reason = ''
         self.kind = kind        # obligation | cover | mustfail
         self.func = func
+
+
+def has_quantifier(f, _cache={}):
+    if not isinstance(f, z3.ExprRef):
+        return False
+    todo, seen = [f], set()
+    while todo:
+        t = todo.pop()
+        i = t.get_id()
+        if i in seen:
+            continue
+        seen.add(i)
+        if z3.is_quantifier(t):
+            return True
+        todo.extend(t.children())
+    return False
 
 
 def zsimp(f):
@@ -82,6 +99,7 @@ class Engine:
         self.trace = []
         self.path_exits = []        # (kind, detail) per finished path
         self.ghost = {}
+        self.time_budget_s = 600
 
     # ------------------------------------------------------------------ symbols
     def fresh_name(self, base):
@@ -111,6 +129,7 @@ class Engine:
     def explore(self, run):
         """run(engine) executes the function once along the current decisions."""
         self.pending = [[]]
+        self.t0 = time.time()
         while self.pending:
             if self.paths >= self.max_paths:
                 raise Unsupported(f'{self.func_name}: more than {self.max_paths} paths')
@@ -125,12 +144,18 @@ class Engine:
             self.solver = z3.Solver()
             self.solver.set('timeout', self.feas_timeout_ms)
             for a in self.axioms:
-                self.solver.add(a)
+                if not has_quantifier(a):
+                    self.solver.add(a)
             try:
                 run(self)
             except PathEnd:
                 pass
             self.paths += 1
+            if DEBUG:
+                print(f'[pyvc] path {self.paths} pending={len(self.pending)} t={time.time()-self.t0:.1f}s '
+                      f'trace={[(l, d) for l, d in self.trace][-6:]}', flush=True)
+            if time.time() - self.t0 > self.time_budget_s:
+                raise Unsupported(f'{self.func_name}: exploration exceeded {self.time_budget_s}s')
 
     def recording(self):
         return self.pos >= self.initial_len
@@ -138,10 +163,16 @@ class Engine:
     def assume(self, f):
         f = as_bool(f)
         self.pc.append(f)
-        self.solver.add(f)
+        # feasibility pruning uses the quantifier-free part only (an over-approximation: sound)
+        if not has_quantifier(f):
+            self.solver.add(f)
 
     def feasible(self, cond):
+        t = time.time()
         r = self.solver.check(cond)
+        dt = time.time() - t
+        if DEBUG and dt > 0.5:
+            print(f'[pyvc] slow feasibility {dt:.1f}s -> {r}: {str(cond)[:100]}', flush=True)
         return r != z3.unsat
 
     def branch(self, cond, label=''):
@@ -262,14 +293,27 @@ def discharge(vc, axioms, timeout_ms=10000, use_cvc5=True, also_cvc5=False):
     for h in vc.hyps:
         s.add(h)
     if vc.kind == 'cover':
+        # reachability witness: decided on the quantifier-free part first (an over-approximation of
+        # satisfiability that is decidable); the full formula may then only refute it
+        qf = z3.Solver()
+        qf.set('timeout', timeout_ms)
+        for h in list(axioms) + list(vc.hyps) + [vc.goal]:
+            if not has_quantifier(h):
+                qf.add(h)
+        r0 = qf.check()
         s.add(vc.goal)
+        s.set('timeout', min(timeout_ms, 2000))
+        r = s.check()
+        if r == z3.unknown and r0 == z3.sat:
+            r = z3.sat
+            vc.reason = 'cover decided on the quantifier-free part'
     else:
         s.add(z3.Not(vc.goal))
-    r = s.check()
+        r = s.check()
     vc.backend = 'z3-' + z3.get_version_string()
     if r == z3.unknown:
         vc.reason = s.reason_unknown()
-        if use_cvc5:
+        if use_cvc5 and vc.kind != 'cover':
             smt2 = '(set-logic ALL)\n' + s.to_smt2()
             res, out = _cvc5_check(smt2, timeout_ms)
             if res in ('sat', 'unsat'):
@@ -292,3 +336,97 @@ def discharge(vc, axioms, timeout_ms=10000, use_cvc5=True, also_cvc5=False):
         if rs == 'sat' and vc.backend.startswith('z3'):
             vc.model = s.model()
     return vc
+
+
+def _model_to_dict(m):
+    out = {}
+    if m is None:
+        return None
+    for d in m.decls():
+        try:
+            v = m[d]
+            if isinstance(v, z3.FuncInterp):
+                ents = {}
+                for i in range(v.num_entries()):
+                    en = v.entry(i)
+                    ents[','.join(str(en.arg_value(j)) for j in range(en.num_args()))] = str(en.value())
+                ents['else'] = str(v.else_value())[:200]
+                out[d.name()] = ents
+            else:
+                out[d.name()] = str(v)[:400]
+        except Exception:
+            out[d.name()] = '?'
+    return out
+
+
+def discharge_all(vcs, axioms, timeout_ms=10000, also_cvc5=False, jobs=4):
+    """Discharge VCs in forked children (hard kill on a solver that ignores its timeout)."""
+    import json, select, signal
+    todo = [i for i, vc in enumerate(vcs) if vc.status is None]
+    running = {}
+    hard = timeout_ms / 1000.0 * (2.5 if also_cvc5 else 2.2) + 5
+
+    def start(i):
+        r, w = os.pipe()
+        pid = os.fork()
+        if pid == 0:
+            os.close(r)
+            code = 0
+            try:
+                vc = vcs[i]
+                try:
+                    discharge(vc, axioms, timeout_ms, True, also_cvc5)
+                    res = dict(status=vc.status, backend=vc.backend, time=vc.time, reason=vc.reason,
+                               model=_model_to_dict(vc.model))
+                except CheckerBug as ex:
+                    res = dict(status='crash', backend='', time=0, reason=str(ex), model=None)
+                os.write(w, json.dumps(res).encode())
+            except BaseException as ex:
+                try:
+                    os.write(w, json.dumps(dict(status='unknown', backend='', time=0,
+                                                reason=f'child error {ex!r}', model=None)).encode())
+                except Exception:
+                    pass
+            finally:
+                os._exit(code)
+        os.close(w)
+        running[pid] = (i, r, time.time())
+
+    while todo or running:
+        while todo and len(running) < jobs:
+            start(todo.pop(0))
+        # reap
+        for pid in list(running):
+            i, r, t0 = running[pid]
+            done, _ = os.waitpid(pid, os.WNOHANG)
+            if done:
+                data = b''
+                while True:
+                    chunk = os.read(r, 65536)
+                    if not chunk:
+                        break
+                    data += chunk
+                os.close(r)
+                del running[pid]
+                vc = vcs[i]
+                try:
+                    res = json.loads(data.decode())
+                except Exception:
+                    res = dict(status='unknown', backend='', time=time.time() - t0, reason='no result from solver child', model=None)
+                if res['status'] == 'crash':
+                    raise CheckerBug(res['reason'])
+                vc.status, vc.backend, vc.time, vc.reason = res['status'], res['backend'], res['time'], res['reason']
+                vc.model = res['model']
+            elif time.time() - t0 > hard:
+                try:
+                    os.kill(pid, signal.SIGKILL)
+                    os.waitpid(pid, 0)
+                except Exception:
+                    pass
+                os.close(r)
+                del running[pid]
+                vc = vcs[i]
+                vc.status, vc.backend, vc.time, vc.reason = 'unknown', 'z3', time.time() - t0, 'hard timeout (solver ignored its limit)'
+        if running:
+            time.sleep(0.005)
+    return vcs
